@@ -7,8 +7,8 @@
 From Coq Require Import Reals List String.
 From SM Require Import Num NumR NumPR.
 From SM.gen Require Import EnginesNp EnginesCs.
-From SM.specs Require Import C15_spec.
-From SM.proofs Require Import EnginesEq.
+From SM.specs Require Import C15_spec C15fin_spec.
+From SM.proofs Require Import EnginesEq EnginesFin.
 
 
 (* every primitive, every variant, scalar or vector arguments of any length: same real value *)
@@ -20,3 +20,32 @@ Print Assumptions C15_same_value_R.
 Theorem C15_same_value_PR : @engines_agree PR NumPR.
 Proof. exact (@engines_agree_all PR NumPR). Qed.
 Print Assumptions C15_same_value_PR.
+
+(* finiteness: on admissible arguments including exact zeros of density and speed, the link laws of
+   both engines are defined over the partial reals and equal their value over the reals (the origin
+   laws, incl. the zero-speed guard of the mainstream origin, are C07_mainstream_defined_* /
+   C07_ramp_defined_*) *)
+Theorem C15_flow_finite_numpy : flow_finite (@Np.links_get_flow PR NumPR) (@Np.links_get_flow R NumR).
+Proof. exact np_flow_finite. Qed.
+Print Assumptions C15_flow_finite_numpy.
+Theorem C15_flow_finite_casadi : flow_finite (@Cs.links_get_flow PR NumPR) (@Cs.links_get_flow R NumR).
+Proof. exact cs_flow_finite. Qed.
+Print Assumptions C15_flow_finite_casadi.
+Theorem C15_density_finite_numpy : density_finite (@Np.links_step_density PR NumPR) (@Np.links_step_density R NumR).
+Proof. exact np_density_finite. Qed.
+Print Assumptions C15_density_finite_numpy.
+Theorem C15_density_finite_casadi : density_finite (@Cs.links_step_density PR NumPR) (@Cs.links_step_density R NumR).
+Proof. exact cs_density_finite. Qed.
+Print Assumptions C15_density_finite_casadi.
+Theorem C15_Veq_finite_numpy : Veq_finite (@Np.links_Veq PR NumPR) (@Np.links_Veq R NumR).
+Proof. exact np_Veq_finite. Qed.
+Print Assumptions C15_Veq_finite_numpy.
+Theorem C15_Veq_finite_casadi : Veq_finite (@Cs.links_Veq PR NumPR) (@Cs.links_Veq R NumR).
+Proof. exact cs_Veq_finite. Qed.
+Print Assumptions C15_Veq_finite_casadi.
+Theorem C15_speed_finite_numpy : speed_finite (@Np.links_step_speed PR NumPR) (@Np.links_step_speed R NumR).
+Proof. exact np_speed_finite. Qed.
+Print Assumptions C15_speed_finite_numpy.
+Theorem C15_speed_finite_casadi : speed_finite (@Cs.links_step_speed PR NumPR) (@Cs.links_step_speed R NumR).
+Proof. exact cs_speed_finite. Qed.
+Print Assumptions C15_speed_finite_casadi.
